@@ -59,7 +59,7 @@ class Scheduler:
         self.killing = False
         self.trace = []            # (tid, token) in execution order
         self.on_step = None        # callback(tid, token) after each executed step
-        self.lock_events = []
+        self.on_lock = None        # callback(kind, tid, name): acquire / release / wait / wakeup
 
     # ---- controller side -----------------------------------------------------
     def spawn(self, tid, fn):
@@ -142,6 +142,8 @@ class SLock:
         assert self.holder is None
         self.holder = t.tid
         t.hist.append(("acquire", self.name))
+        if t.sched.on_lock:
+            t.sched.on_lock("acquire", t.tid, self.name)
         return True
 
     def release(self):
@@ -150,6 +152,8 @@ class SLock:
             return self._real.release()
         if self.holder is None:
             raise RuntimeError("release unlocked lock")
+        if t.sched.on_lock:
+            t.sched.on_lock("release", t.tid, self.name)
         self.holder = None
 
     def locked(self):
@@ -191,11 +195,15 @@ class SCond:
             raise RuntimeError("cannot wait on un-acquired lock")
         me = (t.tid, object())
         self.waiters.append(me)
+        if t.sched.on_lock:
+            t.sched.on_lock("wait", t.tid, self.name)
         self.lock.holder = None
         t.sched.yield_point(("wakeup", self.name),
                             lambda: me not in self.waiters and self.lock.holder is None)
         self.lock.holder = t.tid
         t.hist.append(("wakeup", self.name))
+        if t.sched.on_lock:
+            t.sched.on_lock("wakeup", t.tid, self.name)
         return True
 
     def notify(self, n=1):
